@@ -53,6 +53,7 @@ def main(argv=None):
     ap.add_argument("--replay")
     ap.add_argument("--only", help="comma separated obligation names (debugging; evidence not written)")
     ap.add_argument("--keep", action="store_true")
+    ap.add_argument("--force", help="comma separated obligation names to run as deciding whatever their role/tier (measurement only; implies no evidence)")
     args = ap.parse_args(argv)
     if args.keep:
         os.environ["VERIF_KEEP_WORK"] = "1"
@@ -62,6 +63,9 @@ def main(argv=None):
         if args.replay:
             rc = do_replay(args.cid, args.replay)
         else:
+            if args.force:
+                os.environ["VERIF_FORCE"] = args.force
+                args.only = args.force
             rc = do_check(args.cid, args.tier, args.only, t0)
     except Undecided as e:
         print("UNDECIDED property=%s : %s" % (args.cid, e))
@@ -138,8 +142,12 @@ def kani_phase(prop, tier, known, res, work, only_set):
 
     plan = []  # (ob, role)
     natives = []
-    for o in select(obs, tier):
+    forced = set((os.environ.get("VERIF_FORCE") or "").split(",")) - {""}
+    cand = select(obs, tier) + [o for o in obs if o["name"] in forced and o not in select(obs, tier)]
+    for o in cand:
         role = o.get("role", "deciding")
+        if o["name"] in forced and role in ("disabled", "excl"):
+            role = "deciding"
         if role in ("fallback", "excl", "native_fallback", "disabled"):
             continue  # run on demand / via its owner
         if role == "native_bounded":
